@@ -23,6 +23,8 @@ func init() {
 		Mutants: []Mutant{
 			{ID: "C09-greedy-capability", Desc: "capability capture made greedy", Rule: "C09/capability-capture",
 				Edits: []Edit{{File: "driver/netconf/driver.go", Old: "capability>)(.*?)(?:</", New: "capability>)\\s*(\\S+)\\s*(?:</"}}},
+			{ID: "C09-has-capability-prefix", Desc: "ServerHasCapability matches by prefix", Rule: "C09/has-capability",
+				Edits: []Edit{{File: "driver/netconf/capabilities.go", Old: "\t\tif serverCapability == s {", New: "\t\tif len(serverCapability) >= len(s) && serverCapability[:len(s)] == s {"}}},
 			{ID: "C09-pref10-on-11", Desc: "preferred 1.0 accepted when only 1.1 is advertised", Rule: "C09/version-table",
 				Edits: []Edit{{File: "driver/netconf/capabilities.go", Old: "\tcase V1Dot0:\n\t\tif d.ServerHasCapability(v1Dot0Cap) {", New: "\tcase V1Dot0:\n\t\tif d.ServerHasCapability(v1Dot0Cap) || d.ServerHasCapability(v1Dot1Cap) {"}}},
 			{ID: "C09-10-first", Desc: "1.0 preferred over 1.1 when both advertised", Rule: "C09/version-table",
@@ -121,6 +123,7 @@ func runC09(c *Ctx, r *Report) {
 	r.Rule("C09/hello", "each client hello constant carries exactly one capability, the URN of its own version, end-of-message framed; sendClientCapabilities writes the hello of the selected version", 4)
 	r.Rule("C09/open-order", "Open: channel open, server capabilities, version, client hello (once), then the reader; every error after the channel opened closes it", 5)
 	r.Rule("C09/capability-capture", "the capability pattern's capture is non-greedy or excludes '<', so adjacent capability elements are never merged whatever the hello layout", 1)
+	r.Rule("C09/has-capability", "ServerHasCapability is list membership by string equality (a longer URN with the base URN as prefix is a different capability)", 1)
 	r.Rule("C09/hello-required", "a server greeting without <hello> yields ErrNetconfError", 1)
 	r.Rule("C09/framing-follows-selection", "serialize and the response object are given the selected version", 2)
 
@@ -263,6 +266,7 @@ func checkHasCapability(c *Ctx, r *Report, has *ssa.Function) {
 	if !okShape {
 		r.Notes = append(r.Notes, "ServerHasCapability is not recognisably 'equality with an element of serverCapabilities'; the has() atoms of the table are then only as good as that function")
 	}
+	checkExistsHelper(c, r, "C09/has-capability", has, "eq(elem,param)", "membership of the exact URN in the server's capability list")
 }
 
 func checkHellos(c *Ctx, r *Report) {
